@@ -496,3 +496,45 @@ Proof.
   split; [exact unm_witness_ok|]. split; [rewrite (index_m_spec _ _ unm_witness_ok); reflexivity|].
   vm_compute. repeat split; reflexivity.
 Qed.
+
+(* ---------------------------------------------------------------------------------------- *)
+(* every record is covered by the entry of its own slice                                      *)
+
+Lemma mspec_slices_contains : forall pre s post pos lm e,
+  In e (multi_entries pos (lm + sum_len pre) (s_len s) (s_recs s)) ->
+  In e (mspec_slices pos lm (pre ++ s :: post)).
+Proof.
+  induction pre as [|a pre IH]; intros s post pos lm e H.
+  - cbn [app mspec_slices sum_len] in *. replace (lm + 0) with lm in H by lia.
+    apply in_or_app. left. exact H.
+  - cbn [app mspec_slices]. apply in_or_app. right. apply IH.
+    cbn [sum_len] in H. replace (lm + s_len a + sum_len pre) with (lm + (s_len a + sum_len pre)) by lia. exact H.
+Qed.
+
+Theorem index_m_span_covers_records : forall pos f es c s x r,
+  mfile_ok pos f -> index_m pos f = Ok es ->
+  In c f -> In s (m_slices c) -> In x (s_recs s) -> rid x = Some r ->
+  exists e st, In e es /\ e_rid e = Some r /\ e_off e = m_off c /\ e_landmark e = s_landmark s /\
+               e_slen e = s_len s /\ e_start e = Some st /\ st <= rs x /\ re x <= st + e_span e - 1.
+Proof.
+  intros pos f es c s x r Hok Hidx Hc Hs Hx Hr.
+  rewrite (index_m_spec f pos Hok) in Hidx. injection Hidx as Hidx. subst es.
+  destruct Hok as [Hlay Hsl]. rewrite Forall_forall in Hsl. pose proof (Hsl c Hc) as Hsc.
+  rewrite Forall_forall in Hsc. destruct (Hsc s Hs) as [_ [_ Hrok]].
+  assert (Hrx : rec_ok x) by (rewrite Forall_forall in Hrok; apply Hrok; exact Hx).
+  assert (Hslok : sl_ok (m_len c) (m_slices c)).
+  { clear - Hlay Hc. revert pos Hlay. induction f as [|h t IH]; intros pos Hlay; [destruct Hc|].
+    cbn [mlayout_ok] in Hlay. destruct Hlay as [_ [_ [Hs Hl]]].
+    destruct Hc as [Hc|Hc]; [subst h; exact Hs|apply (IH Hc _ Hl)]. }
+  destruct (in_split _ _ Hs) as [pre [post E]].
+  assert (Hlm : s_landmark s = first_landmark c + sum_len pre).
+  { rewrite E in Hslok. apply (sl_ok_landmark pre (m_len c) s post (first_landmark c) Hslok).
+    unfold first_landmark. rewrite E. destruct (pre ++ s :: post); [exact I|reflexivity]. }
+  destruct (spec_entries_cover (pc (m_off c) (s_landmark s) (s_len s) (s_recs s)) x r Hx Hr Hrx)
+    as [e [st [He [H1 [H2 [H3 H4]]]]]].
+  exists e, st. destruct (spec_entry_layout _ _ He) as [L1 [L2 L3]]. cbn in L1, L2, L3.
+  split.
+  - apply in_flat_map. exists c. split; [exact Hc|]. unfold mspec_entries. rewrite E.
+    apply mspec_slices_contains. rewrite <- Hlm. rewrite <- spec_entries_pc. exact He.
+  - repeat split; assumption.
+Qed.
